@@ -38,6 +38,9 @@ def run(ctx: Ctx) -> None:
 
     redis_source_rules(ctx, "R-C05-ROUTE")  # a rejected not-yet-due message goes back to the delayed set
     rounding(ctx, "R-C05-ROUND")
+    from .delay import whole_duration_rule
+
+    whole_duration_rule(ctx, "R-C05-ROUND")
     compare(ctx, "R-C05-CMP")
     poll(ctx, "R-C05-POLL")
 
@@ -336,6 +339,9 @@ def rounding_of(e: ast.AST) -> tuple[str, str]:
         if last == "str" and e.args:
             return rounding_of(e.args[0])
     if isinstance(e, ast.BinOp) and isinstance(e.op, ast.FloorDiv):
+        r = e.right
+        if isinstance(r, ast.Call) and (dotted(r.func) or "").split(".")[-1] == "timedelta":
+            return "down", ("ms" if any(k.arg in ("milliseconds", "microseconds") for k in r.keywords) else "s")  # duration // unit
         return "down", "s"
     return "exact", ""
 
@@ -378,9 +384,12 @@ def rounding(ctx: Ctx, rule: str) -> None:
     props = C.kw(pubs[0], "properties") if pubs else None
     exp = C.kw(props, "expiration") if isinstance(props, ast.Call) else None
     ctx.require(exp is not None, f"{f.qualname}: expiration property not found (anchor vanished)")
-    defs = [d for x in C.expand_locals(f, exp, depth=3) for d in [x] if isinstance(x, ast.Call)]
+    defs = [d for x in C.expand_locals(f, exp) for d in [x] if isinstance(x, (ast.Call, ast.BinOp))]
     conv = [d for d in defs if rounding_of(d)[0] != "exact"]
-    ctx.floor(rule, len(conv), 1, "integer conversions feeding the RabbitMQ expiration")
+    from .delay import _component_reads
+
+    if not any(comps & {"seconds", "microseconds"} for comps in _component_reads(f.node).values()):  # a component-wise conversion is judged by whole_duration_rule
+        ctx.floor(rule, len(conv), 1, "integer conversions feeding the RabbitMQ expiration")
     for d in conv:
         direction, gran = rounding_of(d)
         ok = gran == "ms" or direction == "up"
